@@ -19,23 +19,6 @@ def F(x):
     return Fr(x)
 
 
-def _n_points(pats):
-    return sum(len(occ) for pat in pats for occ in pat)
-
-
-def _num(x):
-    from fractions import Fraction
-    return Fraction(x)          # 'p/q' strings, ints, and floats (exact binary value)
-
-
-def _flat(v):
-    for x in v:
-        if isinstance(x, (list, tuple)):
-            yield from _flat(x)
-        else:
-            yield _num(x)
-
-
 # ---------------------------------------------------------------------------------------------
 def _frame_labels(ivs, labs, n, frame):
     """label of the interval containing k*frame (later interval wins at a shared boundary); None outside"""
@@ -175,170 +158,25 @@ def multipitch_negative_frequency(inp, what=""):
         and "returned a result" in what
 
 
-@region("c10_trailing_newline")
-def c10_trailing_newline(inp, what=""):
-    """C10 / chord.validate_chord_label: a derivable label followed by exactly one final "\\n"
-    (complement of the hypothesis of Mir.C10.validate_iff_grammar_partial, intersected with acceptance)."""
-    from props.c10 import grammar
-    s = inp["label"]
-    return isinstance(s, str) and s.endswith("\n") and grammar(s[:-1]) is not None
+# ---------------------------------------------------------------------------------------------
+# region predicates written with the property slices live in harness/regions_<slice>.py (same REGIONS/region API)
+def _load_slices():
+    import glob
+    import importlib.util
+    import inspect
+    import os
+    here = os.path.dirname(os.path.abspath(__file__))
+    for f in sorted(glob.glob(os.path.join(here, "regions_*.py"))):
+        spec = importlib.util.spec_from_file_location(os.path.basename(f)[:-3], f)
+        mod = importlib.util.module_from_spec(spec)
+        spec.loader.exec_module(mod)
+        for name, fn in mod.REGIONS.items():
+            if name in REGIONS:
+                continue
+            if len(inspect.signature(fn).parameters) == 1:
+                REGIONS[name] = (lambda g: (lambda inp, what="": g(inp)))(fn)
+            else:
+                REGIONS[name] = fn
 
 
-@region("multipitch_allclose_unequal_timebase")
-def multipitch_allclose_unequal_timebase(inp, what=""):
-    """C18 / multipitch.metrics: the two time bases have the same size and are not equal, yet np.allclose(est, ref)
-    (|est-ref| <= 1e-8 + 1e-5*|ref|) holds, so the estimate is NOT resampled and frames are compared by index.
-    Complement of the hypothesis `timeBasesDiffer rt et = true` of Mir.C18.resampled_when_time_bases_differ_partial."""
-    from fractions import Fraction as Fr
-    rt = [Fr(x) for x in inp["ref_time"]]
-    et = [Fr(x) for x in inp["est_time"]]
-    if len(rt) != len(et) or rt == et:
-        return False
-    return all(abs(e - r) <= Fr(1, 10 ** 8) + Fr(1, 10 ** 5) * abs(r) for e, r in zip(et, rt))
-
-
-@region("beat.cemgil.more_ref_than_est")
-def _beat_cemgil_more_ref(inp, what=""):
-    """complement of the hypothesis of C01.Beat.cemgil_le_one_partial: |ref| <= |est|"""
-    return len(inp["ref"]) > len(inp["est"])
-
-
-@region("beat.cemgil.variation_longer_than_est")
-def _beat_cemgil_best(inp, what=""):
-    """complement of the hypothesis of C01.Beat.cemgil_best_le_one_partial: 2|ref| - 1 <= |est|"""
-    return 2 * len(inp["ref"]) - 1 > len(inp["est"])
-
-
-@region("beat.p_score.single_reference_sample")
-def _beat_pscore_single_sample(inp, what=""):
-    """>= 2 reference and >= 2 estimated beats, and all reference beats fall on ONE 10 ms sample of the impulse
-    train (np.median of an empty interval array is nan; int(nan) raises)"""
-    import math
-    ref, est = inp["ref"], inp["est"]
-    if len(ref) < 2 or len(est) < 2:
-        return False
-    off = min(min(ref), min(est))
-    return len({math.ceil((r - off) * 100) for r in ref}) == 1
-
-
-@region("melody_voiced_frame_at_base_frequency")
-def melody_voiced_frame_at_base_frequency(inp, what=""):
-    """some reference frequency is exactly +-base_frequency (default 10 Hz): hz2cents maps it to 0 cents, which
-    the pitch measures read as 'no pitch' (complement of the hypothesis of C02 `melody_self_partial`)"""
-    base = inp.get("base_frequency") or 10.0
-    return any(abs(f) == base for f in inp["rf"])
-
-
-@region("melody_transformed_frequency_at_base_frequency")
-def melody_transformed_frequency_at_base_frequency(inp, what=""):
-    """a frequency is exactly +-base_frequency before or after the transformation under test (octave shift of the
-    estimate by inp['octaves'], common factor inp['factor']): it then reads as 'no pitch'"""
-    base = inp.get("base_frequency") or 10.0
-    k, c = inp.get("octaves", 0), inp.get("factor", 1.0)
-    fs = [abs(f) for f in inp["rf"]] + [abs(f) for f in inp["ef"]]
-    return (any(f == base or f * c == base for f in fs)
-            or any(abs(f) * 2.0 ** k == base for f in inp["ef"]))
-
-
-@region("adjust_zero_length")
-def adjust_zero_length(inp, what=""):
-    """complement of the hypotheses of Mir.C13.adjust_posdur_partial: an input interval ends exactly at t_min,
-    or starts exactly at t_max, or no interval ends after t_min (all intervals lie before t_min)."""
-    iv = inp["intervals"]
-    a, b = inp["t_min"], inp["t_max"]
-    if a is not None and (any(e == a for _, e in iv) or not any(e > a for _, e in iv)):
-        return True
-    if b is not None and any(s == b for s, _ in iv):
-        return True
-    return False
-
-
-@region("adjust_gap_straddle")
-def adjust_gap_straddle(inp, what=""):
-    """complement of the hypotheses of Mir.C13.adjust_labelAt_partial: t_min or t_max lies strictly inside an
-    internal gap (after the end of one input interval and before the start of the next)."""
-    iv = inp["intervals"]
-    for t in (inp["t_min"], inp["t_max"]):
-        if t is None:
-            continue
-        for (_, e0), (s1, _) in zip(iv[:-1], iv[1:]):
-            if e0 < t < s1:
-                return True
-    return False
-
-
-@region("pattern_standard_nref_gt_nest")
-def pattern_standard_nref_gt_nest(inp, what=""):
-    """complement of the hypothesis of C01.Pattern.standard_precision_partial: more reference than estimated patterns"""
-    return len(inp["ref"]) > len(inp["est"])
-
-
-@region("pattern_empty_side")
-def pattern_empty_side(inp, what=""):
-    """one of the two pattern lists contains no point at all (the early `return 0., 0., 0.` of the first_n functions)"""
-    return _n_points(inp["ref"]) == 0 or _n_points(inp["est"]) == 0
-
-
-@region("window_tie_within_rounding")
-def window_tie_within_rounding(inp, what=""):
-    """some reference/estimate event pair has |r - e| within 1e-9 of the window WITHOUT being exactly on it
-    (exact arithmetic on the doubles the code receives): the code decides such a pair by
-    `est - w <= ref <= est + w` in binary64, so swapping the roles (or shifting the origin) can flip the hit.
-    Exact coincidences (dyadic lattice) are NOT in the region."""
-    w = _num(inp["w"])
-    ref, est = list(_flat(inp["ref"])), list(_flat(inp["est"]))
-    eps = _num(1) / 10 ** 9
-    for r in ref:
-        for e in est:
-            d = abs(abs(r - e) - w)
-            if 0 < d <= eps:
-                return True
-    return False
-
-
-@region("c20_patterns_short_row")
-def c20_patterns_short_row(inp, what=""):
-    """load_patterns: some data line (no 'pattern'/'occurrence' in it) has no comma, and every data line before it
-    is well formed -> `string_values[1]` raises IndexError (complement of `patterns_error_partial`'s hypothesis)."""
-    if inp.get("loader") != "load_patterns":
-        return False
-
-    def ok(x):
-        try:
-            float(x)
-            return True
-        except ValueError:
-            return False
-    for line in inp["content"].split("\n"):
-        if line == "" or "pattern" in line or "occurrence" in line:
-            continue
-        parts = line.split(",")
-        if not ok(parts[0]):
-            return False
-        if len(parts) < 2:
-            return True
-        if not ok(parts[1]):
-            return False
-    return False
-
-
-@region("c20_ragged_text_header")
-def c20_ragged_text_header(inp, what=""):
-    """load_ragged_time_series(header=True) on a file whose first line is a header row: not a comment and its first
-    field is not a number."""
-    import re
-    if inp.get("loader") != "load_ragged_time_series" or not inp.get("params", {}).get("header"):
-        return False
-    p = inp["params"]
-    lines = inp["content"].split("\n")
-    if not lines or lines[0].strip() == "":
-        return False
-    first = lines[0]
-    if p.get("comment") is not None and re.match("^" + p["comment"], first):
-        return False
-    tok = re.split(p["delim"], first.strip())[0]
-    try:
-        float(tok)
-        return False
-    except ValueError:
-        return True
+_load_slices()
